@@ -73,7 +73,7 @@ def model_observation(case):
     wd = C.workdir()
     fn = os.path.join(wd, "one_case.v")
     with open(fn, "w") as fh:
-        fh.write(HEADER + "Eval vm_compute in run_case %s.\n" % G.cq_case(case))
+        fh.write(HEADER + "Eval vm_compute in run_case (%s)%%Z.\n" % G.cq_case(case))
     p = subprocess.run(["coqc", "-Q", C.COQ, "ICV", fn], capture_output=True, text=True, cwd=wd)
     return " ".join(p.stdout.split())[:6000]
 
